@@ -10,6 +10,7 @@ use std::collections::{BTreeMap, BTreeSet, HashMap};
 use std::sync::Arc;
 
 use ag_harness::*;
+use ag_harness::poolkit::*;
 use alpenglow::consensus::{
     Cert, EpochInfo, FastFinalCert, FinalCert, NotarCert, NotarFallbackCert, Pool, PoolEvent, PoolImpl, SkipCert,
     ValidatedCert, ValidatedVote, ValidatorEpochInfo, Vote,
@@ -20,44 +21,6 @@ use alpenglow::network::localhost_ip_sockaddr;
 use alpenglow::types::Slot;
 use alpenglow::{BlockId, Stake, ValidatorIndex, ValidatorInfo};
 use tokio::sync::mpsc;
-
-const MAXN: usize = 40;
-const KINDS: [&str; 5] = ["notar", "nf", "skip", "sf", "final"];
-
-struct Keys {
-    sks: Vec<signature::SecretKey>,
-    vsks: Vec<aggsig::SecretKey>,
-    hashes: Vec<BlockHash>,
-    hash_id: HashMap<BlockHash, usize>,
-}
-
-impl Keys {
-    fn new(rng: &mut Rng) -> Self {
-        let sks = (0..MAXN).map(|_| signature::SecretKey::new(rng)).collect();
-        let vsks = (0..MAXN).map(|_| aggsig::SecretKey::new(rng)).collect();
-        let mut hashes = vec![GENESIS_BLOCK_HASH];
-        for _ in 0..64 {
-            let h: Hash = wincode::deserialize(&rng.bytes(32)).expect("hash");
-            hashes.push(h.into());
-        }
-        let hash_id = hashes.iter().cloned().enumerate().map(|(i, h)| (h, i)).collect();
-        Self { sks, vsks, hashes, hash_id }
-    }
-}
-
-#[derive(Clone, Copy, PartialEq, Eq, PartialOrd, Ord, Debug, Hash)]
-enum K { Notar, Nf, Skip, Sf, Final }
-impl K {
-    fn name(self) -> &'static str { KINDS[self as usize] }
-    fn all() -> [K; 5] { [K::Notar, K::Nf, K::Skip, K::Sf, K::Final] }
-    fn has_hash(self) -> bool { matches!(self, K::Notar | K::Nf) }
-}
-#[derive(Clone, Copy, PartialEq, Eq, PartialOrd, Ord, Debug, Hash)]
-enum CK { Notar, Nf, Skip, Ff, Final }
-impl CK {
-    fn name(self) -> &'static str { ["notar", "nf", "skip", "ff", "final"][self as usize] }
-    fn has_hash(self) -> bool { matches!(self, CK::Notar | CK::Nf | CK::Ff) }
-}
 
 /// the harness's own record of what the pool accepted in one slot
 #[derive(Default, Clone)]
@@ -90,63 +53,6 @@ struct Sim {
     vote_cache: HashMap<(K, u64, usize, usize), ValidatedVote>,
 }
 
-fn met(num: u64, value: u64, total: u64) -> bool { (value as u128) * 5 >= (total as u128) * (num as u128) }
-
-fn make_epoch(keys: &Keys, stakes: &[u64], own: usize) -> Arc<ValidatorEpochInfo> {
-    let validators: Vec<ValidatorInfo> = stakes.iter().enumerate().map(|(i, s)| ValidatorInfo {
-        id: ValidatorIndex::new(i as u64),
-        stake: Stake::new(*s),
-        pubkey: keys.sks[i].to_pk(),
-        voting_pubkey: keys.vsks[i].to_pk(),
-        all2all_address: localhost_ip_sockaddr(0),
-        disseminator_address: localhost_ip_sockaddr(0),
-        repair_requester_address: localhost_ip_sockaddr(0),
-        repair_responder_address: localhost_ip_sockaddr(0),
-    }).collect();
-    Arc::new(ValidatorEpochInfo::new(ValidatorIndex::new(own as u64), EpochInfo::new(validators)))
-}
-
-fn new_pool(epoch: &Arc<ValidatorEpochInfo>) -> (PoolImpl, mpsc::Receiver<PoolEvent>, mpsc::Receiver<BlockId>) {
-    let (ev_tx, ev_rx) = mpsc::channel(1 << 14);
-    let (rep_tx, rep_rx) = mpsc::channel(1 << 14);
-    (PoolImpl::new(epoch.clone(), ev_tx, rep_tx), ev_rx, rep_rx)
-}
-
-fn raw_vote(keys: &Keys, k: K, slot: u64, h: usize, signer: usize) -> Vote {
-    let s = Slot::new(slot);
-    let sk = &keys.vsks[signer];
-    let v = ValidatorIndex::new(signer as u64);
-    match k {
-        K::Notar => Vote::new_notar(s, keys.hashes[h].clone(), sk, v),
-        K::Nf => Vote::new_notar_fallback(s, keys.hashes[h].clone(), sk, v),
-        K::Skip => Vote::new_skip(s, sk, v),
-        K::Sf => Vote::new_skip_fallback(s, sk, v),
-        K::Final => Vote::new_final(s, sk, v),
-    }
-}
-
-fn fmt_list(v: &[usize]) -> String {
-    if v.is_empty() { "-".to_string() } else { v.iter().map(|x| x.to_string()).collect::<Vec<_>>().join(",") }
-}
-
-fn cert_kind(c: &Cert) -> CK {
-    match c { Cert::Notar(_) => CK::Notar, Cert::NotarFallback(_) => CK::Nf, Cert::Skip(_) => CK::Skip, Cert::FastFinal(_) => CK::Ff, Cert::Final(_) => CK::Final }
-}
-
-fn fmt_cert(keys: &Keys, c: &Cert) -> String {
-    let (a, b) = c.verif_signer_halves();
-    let a: Vec<usize> = a.iter().map(|v| v.as_usize()).collect();
-    let b: Vec<usize> = b.iter().map(|v| v.as_usize()).collect();
-    let h = c.block_hash().map(|h| keys.hash_id[h]).unwrap_or(0);
-    format!("cert {} {} {} {} {} {}", cert_kind(c).name(), c.slot().inner(), h, fmt_list(&a), fmt_list(&b), c.stake().inner())
-}
-
-fn fmt_vote(keys: &Keys, v: &Vote) -> String {
-    let k = match v { Vote::Notar(_) => "notar", Vote::NotarFallback(_) => "nf", Vote::Skip(_) => "skip", Vote::SkipFallback(_) => "sf", Vote::Final(_) => "final" };
-    let h = v.block_hash().map(|h| keys.hash_id[h]).unwrap_or(0);
-    format!("vote {} {} {} {}", k, v.slot().inner(), h, v.signer().as_usize())
-}
-
 impl Sim {
     fn new(keys: &Keys, stakes: Vec<u64>, own: usize) -> Self {
         let epoch = make_epoch(keys, &stakes, own);
@@ -164,7 +70,7 @@ impl Sim {
         v
     }
 
-    /// drains both channels; returns canonical event strings
+    /// drains both channels; returns the votor events in channel order followed by the (sorted) repair requests
     fn drain(&mut self, keys: &Keys) -> (Vec<String>, Vec<PoolEvent>) {
         let mut out = Vec::new();
         let mut evs = Vec::new();
@@ -184,33 +90,13 @@ impl Sim {
             }
             evs.push(ev);
         }
+        let mut reps = Vec::new();
         while let Ok((s, h)) = self.rep_rx.try_recv() {
-            out.push(format!("repair {} {}", s.inner(), keys.hash_id[&h]));
+            reps.push(format!("repair {} {}", s.inner(), keys.hash_id[&h]));
         }
-        out.sort();
+        reps.sort();
+        out.extend(reps);
         (out, evs)
-    }
-}
-
-fn build_cert(keys: &Keys, ck: CK, slot: u64, h: usize, a: &[usize], b: &[usize], validators: &[ValidatorInfo]) -> Cert {
-    let s = Slot::new(slot);
-    let hash = keys.hashes[h].clone();
-    let vi = |i: usize| ValidatorIndex::new(i as u64);
-    use alpenglow::consensus::{FinalVote, NotarFallbackVote, NotarVote, SkipFallbackVote, SkipVote};
-    match ck {
-        CK::Notar => { let v: Vec<NotarVote> = a.iter().map(|&i| NotarVote::new(s, hash.clone(), &keys.vsks[i], vi(i))).collect(); Cert::Notar(NotarCert::new(&v, validators)) }
-        CK::Ff => { let v: Vec<NotarVote> = a.iter().map(|&i| NotarVote::new(s, hash.clone(), &keys.vsks[i], vi(i))).collect(); Cert::FastFinal(FastFinalCert::new(&v, validators)) }
-        CK::Final => { let v: Vec<FinalVote> = a.iter().map(|&i| FinalVote::new(s, &keys.vsks[i], vi(i))).collect(); Cert::Final(FinalCert::new(&v, validators)) }
-        CK::Nf => {
-            let v: Vec<NotarVote> = a.iter().map(|&i| NotarVote::new(s, hash.clone(), &keys.vsks[i], vi(i))).collect();
-            let w: Vec<NotarFallbackVote> = b.iter().map(|&i| NotarFallbackVote::new(s, hash.clone(), &keys.vsks[i], vi(i))).collect();
-            Cert::NotarFallback(NotarFallbackCert::new(&v, &w, validators))
-        }
-        CK::Skip => {
-            let v: Vec<SkipVote> = a.iter().map(|&i| SkipVote::new(s, &keys.vsks[i], vi(i))).collect();
-            let w: Vec<SkipFallbackVote> = b.iter().map(|&i| SkipFallbackVote::new(s, &keys.vsks[i], vi(i))).collect();
-            Cert::Skip(SkipCert::new(&v, &w, validators))
-        }
     }
 }
 
